@@ -11,6 +11,7 @@ import (
 	"golang.org/x/tools/go/packages"
 
 	"verif/checker/internal/core"
+	"verif/checker/internal/flow"
 )
 
 func init() {
@@ -19,7 +20,7 @@ func init() {
 		Title:     "Every AST node's span is exact and nested",
 		Technique: "closing-delimiter width rule: End() return expressions of package ast checked against the token that the parser records in each position field (value-origin through parser.expect*), with the token spellings read from token.tokens",
 		Explanation: "Decides for every node kind and every input the structural part of 'End is the offset just after the last token': for each End() method of package ast, every returned expression of the form n.F or n.F + k, where F is a token.Pos field, is compared with the token the parser stores in F (derived from the parser itself: F receives the result of p.expect(K)/expect2(K)/expectClosing(K), directly or through a local); End must add exactly len(K's spelling). " +
-			"Also: Pos() methods never add an offset to a recorded position, and a node type's End never returns a bare token position of a closing delimiter.",
+			"Also: Pos() methods never add an offset to a recorded position, and a node type's End never returns a bare token position of a closing delimiter. End covers the last part (rule end-last-field): for every node type the End method it actually has (own or promoted) mentions the last syntactic field the struct declares. End positions (rules end-not-next-token, end-after-last-token): a field that End() returns as it is (LambdaExpr.Last, ImportSpec.EndPos) is never given p.pos — where the NEXT token starts — and is computed from a value after which, on every path, the parser consumes no further token before building the node.",
 		NotCovered: "that the parser records each position at the right token, nesting/ordering of children, End() methods that delegate to a child, and the re-parse clause.",
 		Run:        runC17,
 		Controls: []Control{
@@ -27,12 +28,26 @@ func init() {
 			{Name: "SliceLit-width-2", File: "ast/ast_gop.go", Old: "func (p *SliceLit) End() token.Pos {\n\treturn p.Rbrack + 1", New: "func (p *SliceLit) End() token.Pos {\n\treturn p.Rbrack + 2", Expect: "end-width/SliceLit.Rbrack"},
 			{Name: "ElemEllipsis-width-1", File: "ast/ast_gop.go", Old: "\treturn p.Ellipsis + 3\n}", New: "\treturn p.Ellipsis + 1\n}", Expect: "end-width/ElemEllipsis.Ellipsis"},
 			{Name: "CallExpr-no-width", File: "ast/ast.go", Old: "func (x *CallExpr) End() token.Pos {\n\tif x.NoParenEnd != token.NoPos {\n\t\treturn x.NoParenEnd\n\t}\n\treturn x.Rparen + 1", New: "func (x *CallExpr) End() token.Pos {\n\tif x.NoParenEnd != token.NoPos {\n\t\treturn x.NoParenEnd\n\t}\n\treturn x.Rparen", Expect: "end-width/CallExpr.Rparen"},
-			{Name: "lambda-last-from-End", File: "parser/parser.go", Old: "\t\t\tLast:        p.pos,\n", New: "\t\t\tLast:        rhs[len(rhs)-1].End() + 1,\n", Expect: "parser-pos-arith/parser.parseLambdaExpr"},
+			{Name: "lambda-last-is-next-token", File: "parser/parser.go", Old: "\t\t\tlast = rhs[0].End()\n", New: "\t\t\tlast = p.pos\n", Expect: "end-not-next-token/LambdaExpr.Last@parser.parseLambdaExpr"},
+			{Name: "lambda-paren-outside-span", File: "parser/parser.go", Old: "\t\t\tlast = p.expect(token.RPAREN) + 1\n", New: "\t\t\tp.expect(token.RPAREN)\n\t\t\tlast = rhs[len(rhs)-1].End()\n", Expect: "end-after-last-token/LambdaExpr.Last@parser.parseLambdaExpr"},
+			{Name: "forphrasestmt-promoted-end", File: "ast/ast_gop.go", Old: "func (p *ForPhraseStmt) End() token.Pos {", New: "func (p *ForPhraseStmt) end() token.Pos {", Expect: "end-last-field/ForPhraseStmt.Body"},
+			{Name: "lambda-last-from-End", File: "parser/parser.go", Old: "\t\t\tlast = rhs[0].End()\n", New: "\t\t\tlast = rhs[0].End() + 1\n", Expect: "parser-pos-arith/parser.parseLambdaExpr"},
 			{Name: "cmd-call-ends-at-next-token", File: "parser/parser.go", Old: "\t\tcase len(list) > 0:\n\t\t\tnoParenEnd = list[len(list)-1].End()\n\t\tdefault:", New: "\t\tcase len(list) > 0:\n\t\t\tnoParenEnd = p.pos\n\t\tdefault:", Expect: "end-next-token/parser.parseCallOrConversion"},
 			{Name: "Pos-offset", File: "ast/ast_gop.go", Old: "func (p *SliceLit) Pos() token.Pos {\n\treturn p.Lbrack", New: "func (p *SliceLit) Pos() token.Pos {\n\treturn p.Lbrack + 1", Expect: "pos-exact/SliceLit"},
 		},
 	})
 }
+
+// c17EndAfterReviewed: end positions computed from an operand after which tokens are consumed, reviewed.
+var c17EndAfterReviewed = map[string]string{
+	"CallExpr.NoParenEnd@parser.parseCallOrConversion": "the tokens consumed after the last argument are `...` (then the ellipsis arm, ellipsis + 3, is taken instead — the rule does not correlate the two switches) and the separating comma, after which the loop parses another argument or reports an error; the finer rule end-next-token covers this site",
+}
+
+// c17EndStoreReviewed: stores of p.pos into an end-position field, reviewed (key Type.Field@parserFunc).
+var c17EndStoreReviewed = map[string]string{}
+
+// c17EndLastReviewed: node types whose End() deliberately ignores the last declared field.
+var c17EndLastReviewed = map[string]string{}
 
 func runC17(c *core.Check) {
 	prog := c.Load("./ast", "./parser", "./token")
@@ -288,6 +303,299 @@ func runC17(c *core.Check) {
 			return true
 		})
 	}
+	// ---------- End() takes the node's LAST part into account: the last syntactic field of the struct (child node, node
+	// list or token position, in declaration = source order; trailing comments excluded) is mentioned by the End method
+	// that the type actually has — a promoted End of an embedded node knows nothing of the fields declared after it
+	{
+		nodeI := ifaceOf(apk.Types.Scope().Lookup("Node").Type())
+		nLast := 0
+		for _, name := range apk.Types.Scope().Names() {
+			tn, ok := apk.Types.Scope().Lookup(name).(*types.TypeName)
+			if !ok || nodeI == nil {
+				continue
+			}
+			st, ok := tn.Type().Underlying().(*types.Struct)
+			if !ok || !types.Implements(types.NewPointer(tn.Type()), nodeI) {
+				continue
+			}
+			var last *types.Var
+			for i := 0; i < st.NumFields(); i++ {
+				f := st.Field(i)
+				if f.Name() == "Comment" || f.Name() == "Doc" {
+					continue
+				}
+				if isASTNodeType(f.Type()) || isNodeSlice(f.Type()) || f.Type().String() == "github.com/goplus/xgo/token.Pos" {
+					last = f
+				}
+			}
+			if last == nil {
+				continue
+			}
+			obj, _, _ := types.LookupFieldOrMethod(types.NewPointer(tn.Type()), true, apk.Types, "End")
+			m, ok := obj.(*types.Func)
+			if !ok {
+				continue
+			}
+			fd := core.FindFuncDecl(apk, core.FuncObjName(m))
+			if fd == nil || fd.Body == nil {
+				continue
+			}
+			nLast++
+			key := tn.Name() + "." + last.Name()
+			mentions := false
+			ast.Inspect(fd.Body, func(n ast.Node) bool {
+				if sel, ok := n.(*ast.SelectorExpr); ok {
+					if s := info.Selections[sel]; s != nil && s.Obj() == last {
+						mentions = true
+					}
+				}
+				return true
+			})
+			if why, ok := c17EndLastReviewed[key]; ok {
+				if mentions {
+					c.Bad("end-last-field", key, fd.Pos(), "listed as a reviewed exception but End() mentions the field now: remove the stale entry")
+				} else {
+					c.Note("end-last-field", key, fd.Pos(), "reviewed: "+why)
+				}
+				continue
+			}
+			c.Decide(mentions, "end-last-field", key, fd.Pos(), "End() ("+core.FuncName(fd)+") takes the last field into account", "the End method of *ast."+tn.Name()+" is "+core.FuncName(fd)+", which never looks at "+key+" — the last part of the node in the source: the node's span stops before it (and the child lies outside its parent's span)")
+		}
+		c.Analysed("node_types_with_end_checked", nLast)
+		c.Floor("end-last-field", 60)
+	}
+
+	// ---------- a field that End() returns as it is (an END position: LambdaExpr.Last, CallExpr.NoParenEnd, ImportSpec.EndPos
+	// …) is never given the parser's current position: p.pos is where the NEXT token starts, so blanks and comments
+	// after the node's last token would be inside its span
+	{
+		nBare := 0
+		for _, fd := range fds {
+			if fd.Name.Name != "End" {
+				continue
+			}
+			recv := info.Defs[fd.Recv.List[0].Names[0]]
+			tname := core.RecvName(fd)
+			if strings.HasPrefix(tname, "Bad") {
+				continue // error nodes span "up to where the parser got"
+			}
+			ast.Inspect(fd.Body, func(n ast.Node) bool {
+				r, ok := n.(*ast.ReturnStmt)
+				if !ok || len(r.Results) != 1 {
+					return true
+				}
+				f := fieldOf(ast.Unparen(r.Results[0]), recv)
+				if f == nil || f.Type().String() != "github.com/goplus/xgo/token.Pos" || quotedToken(docs[f]) != "" {
+					return true
+				}
+				// END positions only (by name: Last, EndPos …); a start position such as Ident.NamePos is rightly p.pos.
+				// CallExpr.NoParenEnd has its own, finer rule (end-next-token: p.pos is allowed in the fallback arm).
+				if !(strings.Contains(f.Name(), "End") || f.Name() == "Last") || f.Name() == "NoParenEnd" {
+					return true
+				}
+				for _, site := range fieldStores([]*packages.Package{ppk}, f) {
+					if site.Fn == nil || site.Value == nil {
+						continue
+					}
+					nBare++
+					key := tname + "." + f.Name() + "@" + core.FuncName(site.Fn)
+					vals := []ast.Expr{site.Value}
+					if o := identObj(pinfo, site.Value); o != nil {
+						if ds := defsOf(pinfo, site.Fn.Body)[o]; len(ds) > 0 {
+							vals = ds
+						}
+					}
+					bad := false
+					for _, v := range vals {
+						if sel, ok := ast.Unparen(v).(*ast.SelectorExpr); ok && sel.Sel.Name == "pos" {
+							if s := pinfo.Selections[sel]; s != nil && s.Kind() == types.FieldVal {
+								bad = true
+							}
+						}
+					}
+					if why, ok := c17EndStoreReviewed[key]; ok {
+						if bad {
+							c.Note("end-not-next-token", key, site.Pos, "reviewed: "+why)
+						} else {
+							c.Bad("end-not-next-token", key, site.Pos, "listed as a reviewed exception but the store no longer uses p.pos: remove the stale entry")
+						}
+						continue
+					}
+					c.Decide(!bad, "end-not-next-token", key, site.Pos, "the end position is taken from the node's own last token", core.FuncName(site.Fn)+" stores the parser's current position (p.pos — the start of the NEXT token) in "+tname+"."+f.Name()+", which "+tname+".End() returns as it is: blanks and comments between the node's last token and the next one fall inside its span")
+				}
+				return true
+			})
+		}
+		c.Analysed("end_position_store_sites", nBare)
+		c.Floor("end-not-next-token", 1)
+	}
+
+	// ---------- an END position (Last, NoParenEnd, EndPos) is computed after the node's last token has been consumed: on no
+	// path does the parser consume a token (p.next, p.expect*, a parse* routine) between the last assignment of the
+	// value stored in the field and the construction of the node. `Last: rhs[n-1].End()` evaluated after
+	// `p.expect(token.RPAREN)` leaves the `)` outside the lambda.
+	{
+		nAfter := 0
+		for _, fd := range core.AllFuncDecls(ppk) {
+			if fd.Body == nil {
+				continue
+			}
+			type site struct {
+				lit  *ast.CompositeLit
+				key  string
+				root types.Object // the variable the stored value is computed from
+			}
+			var sites []site
+			ast.Inspect(fd.Body, func(n ast.Node) bool {
+				cl, ok := n.(*ast.CompositeLit)
+				if !ok {
+					return true
+				}
+				nt := namedOf(pinfo.TypeOf(cl))
+				if nt == nil || nt.Obj().Pkg() != apk.Types {
+					return true
+				}
+				for _, el := range cl.Elts {
+					kv, ok := el.(*ast.KeyValueExpr)
+					if !ok {
+						continue
+					}
+					id, ok := kv.Key.(*ast.Ident)
+					if !ok || !(id.Name == "Last" || id.Name == "NoParenEnd" || id.Name == "EndPos") {
+						continue
+					}
+					if t := pinfo.TypeOf(kv.Value); t == nil || t.String() != "github.com/goplus/xgo/token.Pos" {
+						continue // RangeExpr.Last is an operand, not a position
+					}
+					var root types.Object
+					ast.Inspect(kv.Value, func(m ast.Node) bool {
+						if x, ok := m.(*ast.Ident); ok && root == nil {
+							if v, ok := pinfo.Uses[x].(*types.Var); ok && !v.IsField() && v.Pkg() == ppk.Types && v.Parent() != ppk.Types.Scope() {
+								if recvOf(fd, pinfo) != v {
+									root = v
+								}
+							}
+						}
+						return true
+					})
+					if root != nil {
+						sites = append(sites, site{cl, nt.Obj().Name() + "." + id.Name + "@" + core.FuncName(fd), root})
+					}
+				}
+				return true
+			})
+			for _, st := range sites {
+				st := st
+				nAfter++
+				// the variables the end value is computed from: the root itself and, one level down, the locals mentioned on
+				// the right-hand side of its assignments (last = rhs[n-1].End() → rhs)
+				vars := []types.Object{st.root}
+				idx := map[types.Object]uint{st.root: 0}
+				localsIn := func(e ast.Expr) []types.Object {
+					var out []types.Object
+					ast.Inspect(e, func(m ast.Node) bool {
+						if x, ok := m.(*ast.Ident); ok {
+							if v, ok := pinfo.Uses[x].(*types.Var); ok && !v.IsField() && v.Parent() != ppk.Types.Scope() && v != recvOf(fd, pinfo) {
+								out = append(out, v)
+							}
+						}
+						return true
+					})
+					return out
+				}
+				ast.Inspect(fd.Body, func(n ast.Node) bool {
+					as, ok := n.(*ast.AssignStmt)
+					if !ok || len(as.Lhs) != len(as.Rhs) {
+						return true
+					}
+					for i, l := range as.Lhs {
+						if identObj(pinfo, l) == st.root {
+							for _, v := range localsIn(as.Rhs[i]) {
+								if _, seen := idx[v]; !seen && len(vars) < 8 {
+									idx[v] = uint(len(vars))
+									vars = append(vars, v)
+								}
+							}
+						}
+					}
+					return true
+				})
+				// bit i: a token was consumed since vars[i] was last assigned; bit 16: the root was assigned on this path
+				const bAssigned flow.State = 1 << 16
+				all := flow.State(1)<<uint(len(vars)) - 1
+				bad := token.NoPos
+				p := &flow.Problem{Body: fd.Body, Info: pinfo}
+				p.Node = func(n ast.Node, s flow.State, record bool) flow.State {
+					// order inside one CFG node: calls first, then the assignment of their results
+					for _, call := range flow.Calls(n) {
+						if sel, ok := call.Fun.(*ast.SelectorExpr); ok {
+							if fn, ok := pinfo.Uses[sel.Sel].(*types.Func); ok && fn.Pkg() == ppk.Types && isParserRecv(fn) {
+								nm := fn.Name()
+								if nm == "next" || strings.HasPrefix(nm, "expect") || strings.HasPrefix(nm, "parse") || nm == "advance" {
+									s |= all
+								}
+							}
+						}
+					}
+					if as, isAssign := n.(*ast.AssignStmt); isAssign {
+						for i, l := range as.Lhs {
+							o := identObj(pinfo, l)
+							k, tracked := idx[o]
+							if !tracked {
+								continue
+							}
+							if o == st.root && len(as.Lhs) == len(as.Rhs) {
+								// the root inherits the staleness of what it is computed from
+								stale := false
+								for _, v := range localsIn(as.Rhs[i]) {
+									if j, ok := idx[v]; ok && v != st.root && s&(1<<j) != 0 {
+										stale = true
+									}
+								}
+								s &^= 1
+								if stale {
+									s |= 1
+								}
+								s |= bAssigned
+								continue
+							}
+							s &^= 1 << k
+							if o == st.root {
+								s |= bAssigned
+							}
+						}
+					}
+					if record {
+						found := false
+						ast.Inspect(n, func(m ast.Node) bool {
+							if m == ast.Node(st.lit) {
+								found = true
+							}
+							return !found
+						})
+						// a path on which the value was never assigned builds some other node (the end variable is still zero)
+						if found && s&1 != 0 && s&bAssigned != 0 {
+							bad = st.lit.Pos()
+						}
+					}
+					return s
+				}
+				flow.Solve(p)
+				if why, ok := c17EndAfterReviewed[st.key]; ok {
+					if bad.IsValid() {
+						c.Note("end-after-last-token", st.key, bad, "reviewed: "+why)
+					} else {
+						c.Bad("end-after-last-token", st.key, st.lit.Pos(), "listed as a reviewed exception but no token is consumed after the value any more: remove the stale entry")
+					}
+					continue
+				}
+				c.Decide(!bad.IsValid(), "end-after-last-token", st.key, bad, "no token is consumed between computing the end position and building the node", core.FuncName(fd)+" builds the node with an end position computed from `"+st.root.Name()+"` although, on some path, the parser consumed further tokens after that value (or the operand it is taken from) was last assigned: those tokens (a closing parenthesis, say) belong to the node but lie outside its span")
+			}
+		}
+		c.Analysed("end_position_literals", nAfter)
+		c.Floor("end-after-last-token", 1)
+	}
+
 	// ---------- the parser never manufactures a token position from a child's End()
 	nArith := 0
 	for _, fd := range core.AllFuncDecls(ppk) {
@@ -372,4 +680,22 @@ func quotedToken(doc string) string {
 		return ""
 	}
 	return tok
+}
+
+// recvOf returns the receiver variable of a method declaration.
+func recvOf(fd *ast.FuncDecl, info *types.Info) types.Object {
+	if fd.Recv == nil || len(fd.Recv.List) == 0 || len(fd.Recv.List[0].Names) == 0 {
+		return nil
+	}
+	return info.Defs[fd.Recv.List[0].Names[0]]
+}
+
+// isParserRecv: a method of the parser type.
+func isParserRecv(fn *types.Func) bool {
+	sig, ok := fn.Type().(*types.Signature)
+	if !ok || sig.Recv() == nil {
+		return false
+	}
+	nt := namedOf(derefType(sig.Recv().Type()))
+	return nt != nil && nt.Obj().Name() == "parser"
 }
